@@ -22,6 +22,7 @@ fn main() {
     let mut full = false;
     let mut fill = 0xA5u8;
     let mut path = None;
+    let mut hang_ticks = 40u32; // x 500 ms
     let mut i = 1;
     while i < args.len() {
         match args[i].as_str() {
@@ -30,13 +31,18 @@ fn main() {
                 i += 1;
                 fill = u8::from_str_radix(&args[i], 16).unwrap();
             }
+            "--hang" => {
+                // seconds without progress after which an operation counts as an endless loop
+                i += 1;
+                hang_ticks = args[i].parse::<u32>().unwrap() * 2;
+            }
             p => path = Some(p.to_string()),
         }
         i += 1;
     }
     std::panic::set_hook(Box::new(|_| {}));
-    // watchdog: an operation that does not return within 5 s is an endless loop
-    std::thread::spawn(|| {
+    // watchdog: an operation that does not return within 20 s is an endless loop
+    std::thread::spawn(move || {
         let mut last = util::PROGRESS.load(Ordering::Relaxed);
         let mut stale = 0;
         loop {
@@ -44,7 +50,7 @@ fn main() {
             let now = util::PROGRESS.load(Ordering::Relaxed);
             if now == last {
                 stale += 1;
-                if stale >= 10 {
+                if stale >= hang_ticks {
                     // stdout is locked by the main thread: report through the exit status only
                     // (the case being run was announced with a flushed "begin <id>" line)
                     eprintln!("HANG");
